@@ -77,3 +77,29 @@ class ModeNet(torch.nn.Module):
 
     def forward(self, x):
         return self.NN(x)
+
+
+# ---- optimisers that are NOT rebuilt by class on load, or are closure-driven
+class ClippedAdam(torch.optim.Adam):
+    """a subclass of a stock optimiser (not a direct torch.optim.Optimizer subclass)"""
+
+    def step(self, closure=None):
+        for g in self.param_groups:
+            torch.nn.utils.clip_grad_norm_(g['params'], 10.0)
+        return super().step(closure)
+
+
+class PlainGD(torch.optim.Optimizer):
+    """a user-written optimiser (a direct torch.optim.Optimizer subclass, constructible from the parameters alone)"""
+
+    def __init__(self, params, lr=0.01):
+        super().__init__(params, dict(lr=lr))
+
+    def step(self, closure=None):
+        loss = closure() if closure is not None else None
+        with torch.no_grad():
+            for g in self.param_groups:
+                for p in g['params']:
+                    if p.grad is not None:
+                        p.add_(p.grad, alpha=-g['lr'])
+        return loss
